@@ -105,7 +105,7 @@ _ABSTRACT = ('ComposedGate', 'QuditGate', 'GeneralGate')
 # key -> builder(rng) for gates whose radixes are fixed by the construction
 FIXED: dict[str, Callable[[np.random.Generator], Gate]] = {}
 # key -> builder(rng, radixes) for gates that exist on any radixes
-FLEX: dict[str, Callable[[np.random.Generator, Sequence[int]], Gate]] = {}
+FLEX: dict[str, Callable[[np.random.Generator, Sequence[int], int], Gate]] = {}
 
 
 def _u(rng: np.random.Generator, radixes: Sequence[int]) -> UnitaryMatrix:
@@ -194,17 +194,18 @@ def _init_catalogue() -> None:
     F['PermutationGate(kw)'] = lambda r: G.PermutationGate(num_qudits=2, location=(1, 0))
     # --- flexible radixes
     X = FLEX
-    X['ConstantUnitaryGate'] = lambda r, rx: G.ConstantUnitaryGate(_u(r, rx), list(rx))
-    X['VariableUnitaryGate'] = lambda r, rx: G.VariableUnitaryGate(len(rx), list(rx))
-    X['BarrierPlaceholder'] = lambda r, rx: G.BarrierPlaceholder(len(rx), list(rx))
-    X['IdentityGate'] = lambda r, rx: G.IdentityGate(len(rx), list(rx))
-    X['CircuitGate'] = lambda r, rx: CircuitGate(_small_circuit(r, rx))
-    X['CircuitGate(move)'] = lambda r, rx: CircuitGate(_small_circuit(r, rx), True)
-    X['CircuitGate(nested)'] = lambda r, rx: CircuitGate(_small_circuit(r, rx, nest=2))
-    X['TaggedGate(CircuitGate)'] = lambda r, rx: G.TaggedGate(CircuitGate(_small_circuit(r, rx, nest=0)), 'blk')
-    X['DaggerGate(CircuitGate)'] = lambda r, rx: G.DaggerGate(CircuitGate(_small_circuit(r, rx, nest=0)))
-    X['DaggerGate(VU)'] = lambda r, rx: G.DaggerGate(G.VariableUnitaryGate(len(rx), list(rx)))
-    X['ControlledGate(CU)'] = lambda r, rx: G.ControlledGate(
+    # builders take (rng, radixes, nest): `nest` bounds how deep CircuitGates
+    # may be nested inside the inner circuit (it strictly decreases)
+    X['ConstantUnitaryGate'] = lambda r, rx, n: G.ConstantUnitaryGate(_u(r, rx), list(rx))
+    X['VariableUnitaryGate'] = lambda r, rx, n: G.VariableUnitaryGate(len(rx), list(rx))
+    X['BarrierPlaceholder'] = lambda r, rx, n: G.BarrierPlaceholder(len(rx), list(rx))
+    X['IdentityGate'] = lambda r, rx, n: G.IdentityGate(len(rx), list(rx))
+    X['CircuitGate'] = lambda r, rx, n: CircuitGate(_small_circuit(r, rx, nest=max(n - 1, 0)))
+    X['CircuitGate(move)'] = lambda r, rx, n: CircuitGate(_small_circuit(r, rx, nest=max(n - 1, 0)), True)
+    X['TaggedGate(CircuitGate)'] = lambda r, rx, n: G.TaggedGate(CircuitGate(_small_circuit(r, rx, nest=0)), 'blk')
+    X['DaggerGate(CircuitGate)'] = lambda r, rx, n: G.DaggerGate(CircuitGate(_small_circuit(r, rx, nest=0)))
+    X['DaggerGate(VU)'] = lambda r, rx, n: G.DaggerGate(G.VariableUnitaryGate(len(rx), list(rx)))
+    X['ControlledGate(CU)'] = lambda r, rx, n: G.ControlledGate(
         G.ConstantUnitaryGate(_u(r, rx[1:]), list(rx[1:])), 1, rx[0], rx[0] - 1,
     ) if len(rx) >= 2 else G.ConstantUnitaryGate(_u(r, rx), list(rx))
 
@@ -223,12 +224,13 @@ def flex_keys() -> list[str]:
 
 
 def build_gate(recipe: Sequence[Any]) -> Gate:
-    """recipe = [key, gseed, radixes or None]"""
+    """recipe = [key, gseed, radixes or None, nest (optional)]"""
     _init_catalogue()
     key, gseed, radixes = recipe[0], int(recipe[1]), recipe[2]
+    nest = int(recipe[3]) if len(recipe) > 3 else 0
     rng = np.random.default_rng(gseed)
     if radixes is not None:
-        return FLEX[key](rng, [int(x) for x in radixes])
+        return FLEX[key](rng, [int(x) for x in radixes], nest)
     return FIXED[key](rng)
 
 
@@ -262,7 +264,7 @@ def pick_recipe(
     ]
     w = np.array([3.0 if k in ('ConstantUnitaryGate', 'VariableUnitaryGate') or k.startswith('CircuitGate') else 1.0 for k in keys])
     k = keys[int(rng.choice(len(keys), p=w / w.sum()))]
-    return [k, int(rng.integers(1 << 30)), list(rx)]
+    return [k, int(rng.integers(1 << 30)), list(rx), int(nest)]
 
 
 def rand_params(rng: np.random.Generator, gate: Gate) -> list[float]:
